@@ -3,7 +3,8 @@ Soundness of the lock-skeleton checker (property C14, part a).
 
 `checker_sound`: if `consistent sig prog = true` then every returning execution of
 every function `f` of `prog`, replayed from the entry requirement `req f`, never
-releases a lock that is not held and ends holding (a permutation of) `post f`.
+releases a lock that is not held, touches guarded state (`need cs`) only while a lock of
+one of the classes `cs` is held, and ends holding (a permutation of) `post f`.
 Core Lean only.
 -/
 import BbRe.Model.LockSkel
@@ -50,6 +51,145 @@ theorem removeAll_perm : ∀ (xs h h' : List Nat), removeAll h xs = some h' → 
       exact (List.perm_cons_erase hm).trans (List.Perm.cons x (removeAll_perm xs _ _ e))
     · cases e
 
+/-! ## Guard classes, ghosts, renamings -/
+
+theorem holdsClass_iff {h cs : List Nat} :
+    holdsClass h cs = true ↔ ∃ l, l ∈ h ∧ cs.contains (gcls l) = true := by
+  unfold holdsClass; exact List.any_eq_true
+
+theorem holdsClass_mono {h1 h2 cs : List Nat} (sub : ∀ l, l ∈ h1 → l ∈ h2)
+    (hc : holdsClass h1 cs = true) : holdsClass h2 cs = true := by
+  rw [holdsClass_iff] at hc ⊢
+  obtain ⟨l, hl, hcl⟩ := hc
+  exact ⟨l, sub l hl, hcl⟩
+
+theorem holdsClass_perm {h1 h2 : List Nat} (p : h1.Perm h2) (cs : List Nat) :
+    holdsClass h1 cs = holdsClass h2 cs := by
+  rw [Bool.eq_iff_iff]
+  exact ⟨holdsClass_mono (fun _ => p.mem_iff.mp), holdsClass_mono (fun _ => p.mem_iff.mpr)⟩
+
+theorem mem_of_lookup {α : Type} (f : Nat) (b : α) :
+    ∀ (l : List (Nat × α)), l.lookup f = some b → (f, b) ∈ l
+  | [], e => by cases e
+  | (k, x) :: rest, e => by
+    rw [List.lookup_cons] at e
+    split at e
+    · rename_i hk
+      cases e
+      have : f = k := by simpa using hk
+      subst this
+      exact List.mem_cons_self
+    · exact List.mem_cons_of_mem _ (mem_of_lookup f b rest e)
+
+theorem renOk_mem {ren : List (Nat × Nat)} (hr : renOk ren = true) {a b : Nat}
+    (hm : (a, b) ∈ ren) : gcls a = gcls b ∧ isGhost a = false ∧ isGhost b = false := by
+  unfold renOk at hr
+  have := List.all_eq_true.mp hr _ hm
+  simp only [Bool.and_eq_true, beq_iff_eq, Bool.not_eq_true'] at this
+  exact ⟨this.1.1, this.1.2, this.2⟩
+
+theorem rn_cases (ren : List (Nat × Nat)) (l : Nat) : rn ren l = l ∨ (l, rn ren l) ∈ ren := by
+  unfold rn
+  split
+  · rename_i l' hl; exact Or.inr (mem_of_lookup l l' ren hl)
+  · exact Or.inl rfl
+
+theorem rn_gcls {ren : List (Nat × Nat)} (hr : renOk ren = true) (l : Nat) :
+    gcls (rn ren l) = gcls l := by
+  rcases rn_cases ren l with h | h
+  · rw [h]
+  · exact (renOk_mem hr h).1.symm
+
+theorem rn_isGhost {ren : List (Nat × Nat)} (hr : renOk ren = true) (l : Nat) :
+    isGhost (rn ren l) = isGhost l := by
+  rcases rn_cases ren l with h | h
+  · rw [h]
+  · rw [(renOk_mem hr h).2.1, (renOk_mem hr h).2.2]
+
+theorem rn_ghost {ren : List (Nat × Nat)} (hr : renOk ren = true) {l : Nat}
+    (hg : isGhost l = true) : rn ren l = l := by
+  rcases rn_cases ren l with h | h
+  · exact h
+  · rw [(renOk_mem hr h).2.1] at hg; cases hg
+
+theorem holdsClass_map {ren : List (Nat × Nat)} (hr : renOk ren = true) (h cs : List Nat) :
+    holdsClass (h.map (rn ren)) cs = holdsClass h cs := by
+  unfold holdsClass
+  rw [List.any_map]
+  congr 1
+  funext l
+  simp only [Function.comp, rn_gcls hr]
+
+theorem filter_ng_map {ren : List (Nat × Nat)} (hr : renOk ren = true) (xs : List Nat) :
+    (xs.map (rn ren)).filter (fun l => !isGhost l)
+      = (xs.filter (fun l => !isGhost l)).map (rn ren) := by
+  rw [List.filter_map]
+  congr 1
+  apply List.filter_congr
+  intro x _
+  simp only [Function.comp, rn_isGhost hr]
+
+/-- acq/rel events never mention a ghost lock -/
+def GhostFree (tr : List Ev) : Prop :=
+  ∀ e ∈ tr, (∀ l, e = .acq l → isGhost l = false) ∧ (∀ l, e = .rel l → isGhost l = false)
+
+theorem ghostFree_nil : GhostFree [] := by intro e he; cases he
+
+theorem ghostFree_append {t1 t2 : List Ev} (h1 : GhostFree t1) (h2 : GhostFree t2) :
+    GhostFree (t1 ++ t2) := by
+  intro e he
+  rcases List.mem_append.mp he with h | h
+  · exact h1 e h
+  · exact h2 e h
+
+theorem ghostFree_acq {l : Nat} (hl : isGhost l = false) : GhostFree [.acq l] := by
+  intro e he
+  rw [List.mem_singleton] at he; subst he
+  exact ⟨fun l' h => (by cases h; exact hl), fun l' h => (by cases h)⟩
+
+theorem ghostFree_rel {l : Nat} (hl : isGhost l = false) : GhostFree [.rel l] := by
+  intro e he
+  rw [List.mem_singleton] at he; subst he
+  exact ⟨fun l' h => (by cases h), fun l' h => (by cases h; exact hl)⟩
+
+theorem ghostFree_need (cs : List Nat) : GhostFree [.need cs] := by
+  intro e he
+  rw [List.mem_singleton] at he; subst he
+  exact ⟨fun l' h => (by cases h), fun l' h => (by cases h)⟩
+
+theorem ghostFree_rels {xs : List Nat} (hx : ∀ l ∈ xs, isGhost l = false) :
+    GhostFree (xs.map Ev.rel) := by
+  intro e he
+  obtain ⟨l, hl, rfl⟩ := List.mem_map.mp he
+  exact ⟨fun l' h => (by cases h), fun l' h => (by cases h; exact hx l hl)⟩
+
+theorem ghostFree_tail {e : Ev} {t : List Ev} (h : GhostFree (e :: t)) : GhostFree t :=
+  fun x hx => h x (List.mem_cons_of_mem _ hx)
+
+theorem ghostFree_head_acq {l : Nat} {t : List Ev} (h : GhostFree (.acq l :: t)) :
+    isGhost l = false := (h _ List.mem_cons_self).1 l rfl
+
+theorem ghostFree_head_rel {l : Nat} {t : List Ev} (h : GhostFree (.rel l :: t)) :
+    isGhost l = false := (h _ List.mem_cons_self).2 l rfl
+
+theorem ghostFree_rename {ren : List (Nat × Nat)} (hr : renOk ren = true) {t : List Ev}
+    (h : GhostFree t) : GhostFree (t.map (rnEv ren)) := by
+  intro e he
+  obtain ⟨e0, he0, rfl⟩ := List.mem_map.mp he
+  have h0 := h e0 he0
+  cases e0 with
+  | acq l0 =>
+    refine ⟨fun l hl => ?_, fun l hl => (by simp [rnEv] at hl)⟩
+    simp only [rnEv, Ev.acq.injEq] at hl
+    subst hl
+    rw [rn_isGhost hr]; exact h0.1 l0 rfl
+  | rel l0 =>
+    refine ⟨fun l hl => (by simp [rnEv] at hl), fun l hl => ?_⟩
+    simp only [rnEv, Ev.rel.injEq] at hl
+    subst hl
+    rw [rn_isGhost hr]; exact h0.2 l0 rfl
+  | need cs => exact ⟨fun l hl => (by simp [rnEv] at hl), fun l hl => (by simp [rnEv] at hl)⟩
+
 /-! ## Replay facts -/
 
 theorem run_append (h : List Nat) (t1 t2 : List Ev) :
@@ -87,6 +227,15 @@ theorem run_frame : ∀ (t : List Ev) (h1 h1' h2 fr : List Nat),
       have := List.Perm.erase l p
       rwa [List.erase_append_left fr hm] at this
     · rw [if_neg hc] at e; cases e
+  | .need cs :: t, h1, h1', h2, fr, e, p => by
+    simp only [run, stepH] at e ⊢
+    by_cases hc : holdsClass h1 cs = true
+    · rw [if_pos hc] at e
+      have hc2 : holdsClass h2 cs = true :=
+        holdsClass_mono (fun l hl => p.mem_iff.mpr (List.mem_append_left fr hl)) hc
+      rw [if_pos hc2]
+      exact run_frame t h1 h1' h2 fr e p
+    · rw [if_neg hc] at e; cases e
 
 theorem run_perm {t : List Ev} {h1 h1' h2 : List Nat}
     (e : run h1 t = some h1') (p : h2.Perm h1) :
@@ -101,8 +250,9 @@ theorem map_erase_perm (r : Nat → Nat) {l : Nat} {h : List Nat} (hm : l ∈ h)
   have := List.Perm.erase (r l) p1
   simpa using this
 
-/-- Replay commutes with (not necessarily injective) renaming of lock names. -/
-theorem run_rename (ren : List (Nat × Nat)) : ∀ (t : List Ev) (h h' : List Nat),
+/-- Replay commutes with (not necessarily injective) class-preserving renaming of lock names. -/
+theorem run_rename (ren : List (Nat × Nat)) (hr : renOk ren = true) :
+    ∀ (t : List Ev) (h h' : List Nat),
     run h t = some h' →
     ∃ g', run (h.map (rn ren)) (t.map (rnEv ren)) = some g' ∧ g'.Perm (h'.map (rn ren))
   | [], h, h', e => by
@@ -110,7 +260,7 @@ theorem run_rename (ren : List (Nat × Nat)) : ∀ (t : List Ev) (h h' : List Na
     subst e; exact ⟨_, rfl, List.Perm.refl _⟩
   | .acq l :: t, h, h', e => by
     simp only [run, stepH, List.map_cons, rnEv] at e ⊢
-    exact run_rename ren t (l :: h) h' e
+    exact run_rename ren hr t (l :: h) h' e
   | .rel l :: t, h, h', e => by
     simp only [run, stepH, List.map_cons, rnEv] at e ⊢
     by_cases hc : h.contains l = true
@@ -118,10 +268,118 @@ theorem run_rename (ren : List (Nat × Nat)) : ∀ (t : List Ev) (h h' : List Na
       have hm : l ∈ h := List.contains_iff_mem.mp hc
       have hm2 : rn ren l ∈ h.map (rn ren) := List.mem_map.mpr ⟨l, hm, rfl⟩
       rw [if_pos (List.contains_iff_mem.mpr hm2)]
-      obtain ⟨g1, e1, p1⟩ := run_rename ren t (h.erase l) h' e
+      obtain ⟨g1, e1, p1⟩ := run_rename ren hr t (h.erase l) h' e
       obtain ⟨g2, e2, p2⟩ := run_perm e1 (map_erase_perm (rn ren) hm)
       exact ⟨g2, e2, p2.trans p1⟩
     · rw [if_neg hc] at e; cases e
+  | .need cs :: t, h, h', e => by
+    simp only [run, stepH, List.map_cons, rnEv] at e ⊢
+    by_cases hc : holdsClass h cs = true
+    · rw [if_pos hc] at e
+      rw [if_pos ((holdsClass_map hr h cs).trans hc)]
+      exact run_rename ren hr t h h' e
+    · rw [if_neg hc] at e; cases e
+
+/-- Ghost cover: the ghosts `G` held by a callee may be replaced by any frame `F` that
+contains, for every ghost, a lock of the same class. -/
+theorem run_cover {G F : List Nat} (hG : ∀ g ∈ G, isGhost g = true)
+    (hcov : ∀ g ∈ G, ∃ l, l ∈ F ∧ gcls l = gcls g) :
+    ∀ (t : List Ev) (A h1 h2 h1' : List Nat), GhostFree t → (∀ a ∈ A, isGhost a = false) →
+      h1.Perm (A ++ G) → h2.Perm (A ++ F) → run h1 t = some h1' →
+      ∃ A' h2', (∀ a ∈ A', isGhost a = false) ∧ h1'.Perm (A' ++ G) ∧
+        run h2 t = some h2' ∧ h2'.Perm (A' ++ F)
+  | [], A, h1, h2, h1', _, hA, p1, p2, e => by
+    simp only [run, Option.some.injEq] at e
+    subst e
+    exact ⟨A, h2, hA, p1, rfl, p2⟩
+  | .acq l :: t, A, h1, h2, h1', gf, hA, p1, p2, e => by
+    simp only [run, stepH] at e ⊢
+    have hl := ghostFree_head_acq gf
+    refine run_cover hG hcov t (l :: A) (l :: h1) (l :: h2) h1' (ghostFree_tail gf) ?_
+      (List.Perm.cons l p1) (List.Perm.cons l p2) e
+    intro a ha
+    rcases List.mem_cons.mp ha with rfl | ha
+    · exact hl
+    · exact hA a ha
+  | .rel l :: t, A, h1, h2, h1', gf, hA, p1, p2, e => by
+    simp only [run, stepH] at e ⊢
+    have hl := ghostFree_head_rel gf
+    by_cases hc : h1.contains l = true
+    · rw [if_pos hc] at e
+      have hm1 : l ∈ A ++ G := p1.mem_iff.mp (List.contains_iff_mem.mp hc)
+      have hmA : l ∈ A := by
+        rcases List.mem_append.mp hm1 with h | h
+        · exact h
+        · have := hG l h; rw [hl] at this; cases this
+      have hm2 : l ∈ h2 := p2.mem_iff.mpr (List.mem_append_left F hmA)
+      rw [if_pos (List.contains_iff_mem.mpr hm2)]
+      refine run_cover hG hcov t (A.erase l) (h1.erase l) (h2.erase l) h1' (ghostFree_tail gf)
+        (fun a ha => hA a (List.mem_of_mem_erase ha)) ?_ ?_ e
+      · have := List.Perm.erase l p1
+        rwa [List.erase_append_left G hmA] at this
+      · have := List.Perm.erase l p2
+        rwa [List.erase_append_left F hmA] at this
+    · rw [if_neg hc] at e; cases e
+  | .need cs :: t, A, h1, h2, h1', gf, hA, p1, p2, e => by
+    simp only [run, stepH] at e ⊢
+    by_cases hc : holdsClass h1 cs = true
+    · rw [if_pos hc] at e
+      have hc2 : holdsClass h2 cs = true := by
+        rw [holdsClass_iff] at hc ⊢
+        obtain ⟨x, hx, hcx⟩ := hc
+        rcases List.mem_append.mp (p1.mem_iff.mp hx) with hxa | hxg
+        · exact ⟨x, p2.mem_iff.mpr (List.mem_append_left F hxa), hcx⟩
+        · obtain ⟨y, hy, hcy⟩ := hcov x hxg
+          exact ⟨y, p2.mem_iff.mpr (List.mem_append_right A hy), by rw [hcy]; exact hcx⟩
+      rw [if_pos hc2]
+      exact run_cover hG hcov t A h1 h2 h1' (ghostFree_tail gf) hA p1 p2 e
+    · rw [if_neg hc] at e; cases e
+
+/-- The effect of a call on the caller's held multiset (list-level core of the `call` case). -/
+theorem call_replay {ren : List (Nat × Nat)} (hr : renOk ren = true)
+    {req post hp frame h ha : List Nat} {t : List Ev}
+    (e1 : run req t = some hp) (p1 : hp.Perm post) (gf : GhostFree t)
+    (hrem : removeAll ha ((req.filter (fun l => !isGhost l)).map (rn ren)) = some frame)
+    (hcov : ∀ gh ∈ req.filter isGhost, holdsClass frame [gcls gh] = true)
+    (hpa : h.Perm ha) :
+    ∃ h2, run h (t.map (rnEv ren)) = some h2 ∧
+      h2.Perm (addAll frame ((post.filter (fun l => !isGhost l)).map (rn ren))) := by
+  obtain ⟨g1, e2, p2⟩ := run_rename ren hr t req hp e1
+  have hG : ∀ g ∈ req.filter isGhost, isGhost g = true := fun g hg => (List.mem_filter.mp hg).2
+  have hGmap : (req.filter isGhost).map (rn ren) = req.filter isGhost := by
+    have : (req.filter isGhost).map (rn ren) = (req.filter isGhost).map id :=
+      List.map_congr_left (fun a ha => rn_ghost hr (hG a ha))
+    rw [this, List.map_id]
+  have preq : (req.map (rn ren)).Perm
+      ((req.filter (fun l => !isGhost l)).map (rn ren) ++ req.filter isGhost) := by
+    have q := (List.filter_append_perm isGhost req).symm.trans List.perm_append_comm
+    have q2 := List.Perm.map (rn ren) q
+    rwa [List.map_append, hGmap] at q2
+  have pf : h.Perm ((req.filter (fun l => !isGhost l)).map (rn ren) ++ frame) :=
+    hpa.trans (removeAll_perm _ _ _ hrem)
+  have hcov' : ∀ g ∈ req.filter isGhost, ∃ l, l ∈ frame ∧ gcls l = gcls g := by
+    intro g hg
+    obtain ⟨l, hl, hcl⟩ := holdsClass_iff.mp (hcov g hg)
+    exact ⟨l, hl, by simpa using hcl⟩
+  have hA : ∀ a ∈ (req.filter (fun l => !isGhost l)).map (rn ren), isGhost a = false := by
+    intro a ha
+    obtain ⟨a0, ha0, rfl⟩ := List.mem_map.mp ha
+    rw [rn_isGhost hr]
+    simpa using (List.mem_filter.mp ha0).2
+  obtain ⟨A', h2', hA', q1, e3, q2⟩ :=
+    run_cover hG hcov' _ _ _ _ _ (ghostFree_rename hr gf) hA preq pf e2
+  refine ⟨h2', e3, q2.trans (List.Perm.trans ?_ (addAll_perm frame _).symm)⟩
+  refine List.Perm.append_right frame ?_
+  have f1 : (A' ++ req.filter isGhost).filter (fun l => !isGhost l) = A' := by
+    rw [List.filter_append]
+    have a1 : A'.filter (fun l => !isGhost l) = A' :=
+      List.filter_eq_self.mpr (fun a ha => by rw [hA' a ha]; rfl)
+    have a2 : (req.filter isGhost).filter (fun l => !isGhost l) = [] :=
+      List.filter_eq_nil_iff.mpr (fun a ha => by rw [hG a ha]; simp)
+    rw [a1, a2, List.append_nil]
+  have f2 := List.Perm.filter (fun l => !isGhost l) (q1.symm.trans (p2.trans (List.Perm.map _ p1)))
+  rw [f1, filter_ng_map hr] at f2
+  exact f2
 
 theorem run_rels_eq_removeAll : ∀ (xs h : List Nat), run h (xs.map Ev.rel) = removeAll h xs
   | [], h => rfl
@@ -170,88 +428,181 @@ theorem bindAll_mem {k : Out → AS → Res} : ∀ {r : Outs} {R : Outs} {o : Ou
         · obtain ⟨R1, e1, sub⟩ := bindAll_mem h2 hm'
           exact ⟨R1, e1, fun x hx => mem_union.mpr (Or.inr (sub x hx))⟩
 
+/-! ## Pile contents are never ghosts -/
+
+/-- Invariant of the control state along checked paths: no pile contains a ghost lock. -/
+def PilesOK (c : CS) : Prop := ∀ kv ∈ c.piles, ∀ l ∈ kv.2, isGhost l = false
+
+theorem getP_mem : ∀ (ps : List (Nat × List Nat)) (p l : Nat), l ∈ getP ps p →
+    ∃ kv, kv ∈ ps ∧ l ∈ kv.2
+  | [], p, l, h => by cases h
+  | (k, x) :: r, p, l, h => by
+    unfold getP at h
+    split at h
+    · exact ⟨(k, x), List.mem_cons_self, h⟩
+    · obtain ⟨kv, hkv, hl⟩ := getP_mem r p l h
+      exact ⟨kv, List.mem_cons_of_mem _ hkv, hl⟩
+
+theorem setP_mem : ∀ (ps : List (Nat × List Nat)) (p : Nat) (xs : List Nat) (kv : Nat × List Nat),
+    kv ∈ setP ps p xs → kv ∈ ps ∨ kv = (p, xs)
+  | [], p, xs, kv, h => by
+    unfold setP at h
+    split at h
+    · cases h
+    · exact Or.inr (List.mem_singleton.mp h)
+  | (k, x) :: r, p, xs, kv, h => by
+    unfold setP at h
+    by_cases h1 : p < k
+    · rw [if_pos h1] at h
+      split at h
+      · exact Or.inl h
+      · rcases List.mem_cons.mp h with h | h
+        · exact Or.inr h
+        · exact Or.inl h
+    · rw [if_neg h1] at h
+      by_cases h2 : p = k
+      · rw [if_pos h2] at h
+        split at h
+        · exact Or.inl (List.mem_cons_of_mem _ h)
+        · rcases List.mem_cons.mp h with h | h
+          · exact Or.inr h
+          · exact Or.inl (List.mem_cons_of_mem _ h)
+      · rw [if_neg h2] at h
+        rcases List.mem_cons.mp h with h | h
+        · exact Or.inl (h ▸ List.mem_cons_self)
+        · rcases setP_mem r p xs kv h with h | h
+          · exact Or.inl (List.mem_cons_of_mem _ h)
+          · exact Or.inr h
+
+theorem pilesOK_get {c : CS} (hc : PilesOK c) (p : Nat) :
+    ∀ l ∈ getP c.piles p, isGhost l = false := by
+  intro l hl
+  obtain ⟨kv, hkv, hl'⟩ := getP_mem _ _ _ hl
+  exact hc kv hkv l hl'
+
+theorem pilesOK_set {c : CS} (hc : PilesOK c) (p : Nat) {xs : List Nat}
+    (hxs : ∀ l ∈ xs, isGhost l = false) :
+    PilesOK { c with piles := setP c.piles p xs } := by
+  intro kv hkv l hl
+  rcases setP_mem _ _ _ _ hkv with h | h
+  · exact hc kv h l hl
+  · subst h; exact hxs l hl
+
 /-! ## Simulation of one statement -/
 
 /-- What the induction assumes about callees. -/
 def CalleeOK (sig : Sig) (C : Nat → List Ev → Prop) : Prop :=
   ∀ g t, C g t → ∀ req post, sig.get g = some (req, post) →
-    ∃ h', run req t = some h' ∧ h'.Perm post
+    GhostFree t ∧ ∃ h', run req t = some h' ∧ h'.Perm post
 
 /-- The symbolic execution of `s` covers every non-panicking concrete path of `s`. -/
 def Sim (sig : Sig) (C : Nat → List Ev → Prop) (s : Stmt) : Prop :=
   ∀ (ha : List Nat) (c : CS) (R : Outs) (h : List Nat) (tr : List Ev) (o : Out) (c' : CS),
-    execA sig s ⟨ha, c⟩ = .ok R → h.Perm ha → sem C s c tr o c' →
-    o = .pnc ∨ ∃ h' ha', run h tr = some h' ∧ (o, (⟨ha', c'⟩ : AS)) ∈ R ∧ h'.Perm ha'
+    execA sig s ⟨ha, c⟩ = .ok R → h.Perm ha → PilesOK c → sem C s c tr o c' →
+    o = .pnc ∨ (GhostFree tr ∧ PilesOK c' ∧
+      ∃ h' ha', run h tr = some h' ∧ (o, (⟨ha', c'⟩ : AS)) ∈ R ∧ h'.Perm ha')
 
 variable {sig : Sig} {C : Nat → List Ev → Prop}
 
 theorem sim_skip : Sim sig C .skip := by
-  intro ha c R h tr o c' he hp hs
+  intro ha c R h tr o c' he hp hk hs
   simp only [execA, Except.ok.injEq] at he
   simp only [sem] at hs
   obtain ⟨rfl, rfl, rfl⟩ := hs
   subst he
-  exact Or.inr ⟨h, ha, rfl, List.mem_singleton.mpr rfl, hp⟩
+  exact Or.inr ⟨ghostFree_nil, hk, h, ha, rfl, List.mem_singleton.mpr rfl, hp⟩
+
+theorem sim_mark (k m : Nat) : Sim sig C (.mark k m) := by
+  intro ha c R h tr o c' he hp hk hs
+  simp only [execA, Except.ok.injEq] at he
+  simp only [sem] at hs
+  obtain ⟨rfl, rfl, rfl⟩ := hs
+  subst he
+  exact Or.inr ⟨ghostFree_nil, hk, h, ha, rfl, List.mem_singleton.mpr rfl, hp⟩
 
 theorem sim_ret (t : Nat) : Sim sig C (.ret t) := by
-  intro ha c R h tr o c' he hp hs
+  intro ha c R h tr o c' he hp hk hs
   simp only [execA, Except.ok.injEq] at he
   simp only [sem] at hs
   obtain ⟨rfl, rfl, rfl⟩ := hs
   subst he
-  exact Or.inr ⟨h, ha, rfl, List.mem_singleton.mpr rfl, hp⟩
+  exact Or.inr ⟨ghostFree_nil, hk, h, ha, rfl, List.mem_singleton.mpr rfl, hp⟩
 
 theorem sim_brk : Sim sig C .brk := by
-  intro ha c R h tr o c' he hp hs
+  intro ha c R h tr o c' he hp hk hs
   simp only [execA, Except.ok.injEq] at he
   simp only [sem] at hs
   obtain ⟨rfl, rfl, rfl⟩ := hs
   subst he
-  exact Or.inr ⟨h, ha, rfl, List.mem_singleton.mpr rfl, hp⟩
+  exact Or.inr ⟨ghostFree_nil, hk, h, ha, rfl, List.mem_singleton.mpr rfl, hp⟩
 
 theorem sim_cont : Sim sig C .cont := by
-  intro ha c R h tr o c' he hp hs
+  intro ha c R h tr o c' he hp hk hs
   simp only [execA, Except.ok.injEq] at he
   simp only [sem] at hs
   obtain ⟨rfl, rfl, rfl⟩ := hs
   subst he
-  exact Or.inr ⟨h, ha, rfl, List.mem_singleton.mpr rfl, hp⟩
+  exact Or.inr ⟨ghostFree_nil, hk, h, ha, rfl, List.mem_singleton.mpr rfl, hp⟩
 
 theorem sim_panic : Sim sig C .panic := by
-  intro ha c R h tr o c' he hp hs
+  intro ha c R h tr o c' he hp hk hs
   simp only [sem] at hs
   exact Or.inl hs.2.1
 
 theorem sim_unsupported (w : Nat) : Sim sig C (.unsupported w) := by
-  intro ha c R h tr o c' he hp hs
+  intro ha c R h tr o c' he hp hk hs
   simp only [execA] at he
   cases he
 
 theorem sim_setFlag (v : Nat) (b : Bool) : Sim sig C (.setFlag v b) := by
-  intro ha c R h tr o c' he hp hs
+  intro ha c R h tr o c' he hp hk hs
   simp only [execA, Except.ok.injEq] at he
   simp only [sem] at hs
   obtain ⟨rfl, rfl, rfl⟩ := hs
   subst he
-  exact Or.inr ⟨h, ha, rfl, List.mem_singleton.mpr rfl, hp⟩
+  exact Or.inr ⟨ghostFree_nil, hk, h, ha, rfl, List.mem_singleton.mpr rfl, hp⟩
+
+theorem sim_need (cs : List Nat) : Sim sig C (.need cs) := by
+  intro ha c R h tr o c' he hp hk hs
+  simp only [execA] at he
+  simp only [sem] at hs
+  obtain ⟨rfl, rfl, rfl⟩ := hs
+  by_cases hc : holdsClass ha cs = true
+  · rw [if_pos hc] at he
+    cases he
+    have hc' : holdsClass h cs = true := by rw [holdsClass_perm hp]; exact hc
+    have hr : run h [.need cs] = some h := by simp only [run, stepH, if_pos hc']
+    exact Or.inr ⟨ghostFree_need cs, hk, h, ha, hr, List.mem_singleton.mpr rfl, hp⟩
+  · rw [if_neg hc] at he; cases he
 
 theorem sim_acq (l : Nat) : Sim sig C (.acq l) := by
-  intro ha c R h tr o c' he hp hs
-  simp only [execA, Except.ok.injEq] at he
+  intro ha c R h tr o c' he hp hk hs
+  simp only [execA] at he
   simp only [sem] at hs
   obtain ⟨rfl, rfl, rfl⟩ := hs
-  subst he
-  exact Or.inr ⟨l :: h, insertS l ha, rfl, List.mem_singleton.mpr rfl,
-    (List.Perm.cons l hp).trans (insertS_perm l ha).symm⟩
+  by_cases hg : isGhost l = true
+  · rw [if_pos hg] at he; cases he
+  · rw [if_neg hg] at he
+    cases he
+    exact Or.inr ⟨ghostFree_acq (eq_false_of_ne_true hg), hk, l :: h, insertS l ha, rfl,
+      List.mem_singleton.mpr rfl, (List.Perm.cons l hp).trans (insertS_perm l ha).symm⟩
 
 theorem sim_pileLock (p l : Nat) : Sim sig C (.pileLock p l) := by
-  intro ha c R h tr o c' he hp hs
-  simp only [execA, Except.ok.injEq] at he
+  intro ha c R h tr o c' he hp hk hs
+  simp only [execA] at he
   simp only [sem] at hs
   obtain ⟨rfl, rfl, rfl⟩ := hs
-  subst he
-  exact Or.inr ⟨l :: h, insertS l ha, rfl, List.mem_singleton.mpr rfl,
-    (List.Perm.cons l hp).trans (insertS_perm l ha).symm⟩
+  by_cases hg : isGhost l = true
+  · rw [if_pos hg] at he; cases he
+  · rw [if_neg hg] at he
+    cases he
+    have hg' := eq_false_of_ne_true hg
+    refine Or.inr ⟨ghostFree_acq hg', pilesOK_set hk p ?_, l :: h, insertS l ha, rfl,
+      List.mem_singleton.mpr rfl, (List.Perm.cons l hp).trans (insertS_perm l ha).symm⟩
+    intro x hx
+    rcases List.mem_cons.mp ((insertS_perm l _).mem_iff.mp hx) with rfl | hx
+    · exact hg'
+    · exact pilesOK_get hk p x hx
 
 theorem run_rel_perm {h ha : List Nat} {l : Nat} (hp : h.Perm ha) (hc : ha.contains l = true) :
     run h [.rel l] = some (h.erase l) ∧ (h.erase l).Perm (ha.erase l) := by
@@ -260,34 +611,43 @@ theorem run_rel_perm {h ha : List Nat} {l : Nat} (hp : h.Perm ha) (hc : ha.conta
   exact ⟨trivial, List.Perm.erase l hp⟩
 
 theorem sim_rel (l : Nat) : Sim sig C (.rel l) := by
-  intro ha c R h tr o c' he hp hs
+  intro ha c R h tr o c' he hp hk hs
   simp only [execA] at he
   simp only [sem] at hs
   obtain ⟨rfl, rfl, rfl⟩ := hs
-  by_cases hc : ha.contains l = true
-  · rw [if_pos hc] at he
-    cases he
-    obtain ⟨r1, p1⟩ := run_rel_perm hp hc
-    exact Or.inr ⟨h.erase l, ha.erase l, r1, List.mem_singleton.mpr rfl, p1⟩
-  · rw [if_neg hc] at he; cases he
-
-theorem sim_pileUnlock (p l : Nat) : Sim sig C (.pileUnlock p l) := by
-  intro ha c R h tr o c' he hp hs
-  simp only [execA] at he
-  simp only [sem] at hs
-  by_cases hq : (getP c.piles p).contains l = true
-  · rw [if_pos hq] at he hs
-    obtain ⟨rfl, rfl, rfl⟩ := hs
+  by_cases hg : isGhost l = true
+  · rw [if_pos hg] at he; cases he
+  · rw [if_neg hg] at he
     by_cases hc : ha.contains l = true
     · rw [if_pos hc] at he
       cases he
       obtain ⟨r1, p1⟩ := run_rel_perm hp hc
-      exact Or.inr ⟨h.erase l, ha.erase l, r1, List.mem_singleton.mpr rfl, p1⟩
+      exact Or.inr ⟨ghostFree_rel (eq_false_of_ne_true hg), hk, h.erase l, ha.erase l, r1,
+        List.mem_singleton.mpr rfl, p1⟩
     · rw [if_neg hc] at he; cases he
-  · rw [if_neg hq] at he; cases he
+
+theorem sim_pileUnlock (p l : Nat) : Sim sig C (.pileUnlock p l) := by
+  intro ha c R h tr o c' he hp hk hs
+  simp only [execA] at he
+  simp only [sem] at hs
+  by_cases hg : isGhost l = true
+  · rw [if_pos hg] at he; cases he
+  · rw [if_neg hg] at he
+    by_cases hq : (getP c.piles p).contains l = true
+    · rw [if_pos hq] at he hs
+      obtain ⟨rfl, rfl, rfl⟩ := hs
+      by_cases hc : ha.contains l = true
+      · rw [if_pos hc] at he
+        cases he
+        obtain ⟨r1, p1⟩ := run_rel_perm hp hc
+        refine Or.inr ⟨ghostFree_rel (eq_false_of_ne_true hg), pilesOK_set hk p ?_,
+          h.erase l, ha.erase l, r1, List.mem_singleton.mpr rfl, p1⟩
+        exact fun x hx => pilesOK_get hk p x (List.mem_of_mem_erase hx)
+      · rw [if_neg hc] at he; cases he
+    · rw [if_neg hq] at he; cases he
 
 theorem sim_pileUnlockAll (p : Nat) : Sim sig C (.pileUnlockAll p) := by
-  intro ha c R h tr o c' he hp hs
+  intro ha c R h tr o c' he hp hk hs
   simp only [execA] at he
   simp only [sem] at hs
   obtain ⟨rfl, rfl, rfl⟩ := hs
@@ -297,55 +657,76 @@ theorem sim_pileUnlockAll (p : Nat) : Sim sig C (.pileUnlockAll p) := by
     have e1 : run ha ((getP c.piles p).map Ev.rel) = some hr := by
       rw [run_rels_eq_removeAll]; exact heq
     obtain ⟨h2, e2, p2⟩ := run_perm e1 hp
-    exact Or.inr ⟨h2, hr, e2, List.mem_singleton.mpr rfl, p2⟩
+    refine Or.inr ⟨ghostFree_rels (pilesOK_get hk p), pilesOK_set hk p ?_, h2, hr, e2,
+      List.mem_singleton.mpr rfl, p2⟩
+    intro x hx; cases hx
   · cases he
+
+theorem callA_ok {sig : Sig} {g : Nat} {ren : List (Nat × Nat)} {held frame h' : List Nat}
+    (he : callA sig g ren held = .ok (frame, h')) :
+    ∃ req post, sig.get g = some (req, post) ∧ renOk ren = true ∧
+      removeAll held ((req.filter (fun l => !isGhost l)).map (rn ren)) = some frame ∧
+      (∀ gh ∈ req.filter isGhost, holdsClass frame [gcls gh] = true) ∧
+      h' = addAll frame ((post.filter (fun l => !isGhost l)).map (rn ren)) := by
+  unfold callA at he
+  split at he
+  · cases he
+  · rename_i req post hsig
+    by_cases hr : renOk ren = true
+    · simp only [hr, Bool.not_true, Bool.false_eq_true, if_false] at he
+      split at he
+      · cases he
+      · rename_i fr hrem
+        split at he
+        · rename_i hall
+          simp only [Except.ok.injEq, Prod.mk.injEq] at he
+          obtain ⟨rfl, rfl⟩ := he
+          exact ⟨req, post, hsig, hr, hrem, fun gh hgh => List.all_eq_true.mp hall gh hgh, rfl⟩
+        · cases he
+    · have : renOk ren = false := eq_false_of_ne_true hr
+      simp only [this, Bool.not_false, if_true] at he
+      cases he
 
 theorem sim_call (hC : CalleeOK sig C) (g : Nat) (ren : List (Nat × Nat)) :
     Sim sig C (.call g ren) := by
-  intro ha c R h tr o c' he hp hs
+  intro ha c R h tr o c' he hp hk hs
   simp only [execA] at he
   simp only [sem] at hs
   obtain ⟨t, hct, rfl, rfl, rfl⟩ := hs
   split at he
   · cases he
-  · rename_i req post hsig
-    split at he
-    · cases he
-    · rename_i hr hrem
-      cases he
-      obtain ⟨h1, e1, p1⟩ := hC g t hct req post hsig
-      obtain ⟨g1, e2, p2⟩ := run_rename ren t req h1 e1
-      have pf : h.Perm (req.map (rn ren) ++ hr) := hp.trans (removeAll_perm _ _ _ hrem)
-      obtain ⟨h2, e3, p3⟩ := run_frame _ _ _ _ _ e2 pf
-      refine Or.inr ⟨h2, _, e3, List.mem_singleton.mpr rfl, ?_⟩
-      refine p3.trans (List.Perm.trans ?_ (addAll_perm hr (post.map (rn ren))).symm)
-      exact List.Perm.append_right hr (p2.trans (List.Perm.map _ p1))
+  · rename_i frame hnew hcall
+    cases he
+    obtain ⟨req, post, hsig, hr, hrem, hcov, rfl⟩ := callA_ok hcall
+    obtain ⟨gf, h1, e1, p1⟩ := hC g t hct req post hsig
+    obtain ⟨h2, e2, p2⟩ := call_replay hr e1 p1 gf hrem hcov hp
+    exact Or.inr ⟨ghostFree_rename hr gf, hk, h2, _, e2, List.mem_singleton.mpr rfl, p2⟩
 
 theorem sim_seq {a b : Stmt} (ia : Sim sig C a) (ib : Sim sig C b) : Sim sig C (.seq a b) := by
-  intro ha c R h tr o c' he hp hs
+  intro ha c R h tr o c' he hp hk hs
   simp only [execA] at he
   split at he
   · cases he
   · rename_i r hra
     simp only [sem] at hs
     rcases hs with ⟨c1, t1, t2, s1, s2, rfl⟩ | ⟨hne, s1⟩
-    · rcases ia ha c r h t1 .norm c1 hra hp s1 with hpn | ⟨h1, ha1, r1, m1, p1⟩
+    · rcases ia ha c r h t1 .norm c1 hra hp hk s1 with hpn | ⟨g1, k1', h1, ha1, r1, m1, p1⟩
       · cases hpn
       · obtain ⟨R1, k1, sub⟩ := bindAll_mem he m1
         rw [if_pos rfl] at k1
-        rcases ib ha1 c1 R1 h1 t2 o c' k1 p1 s2 with hpn | ⟨h2, ha2, r2, m2, p2⟩
+        rcases ib ha1 c1 R1 h1 t2 o c' k1 p1 k1' s2 with hpn | ⟨g2, k2', h2, ha2, r2, m2, p2⟩
         · exact Or.inl hpn
-        · exact Or.inr ⟨h2, ha2, run_append_some r1 r2, sub _ m2, p2⟩
-    · rcases ia ha c r h tr o c' hra hp s1 with hpn | ⟨h1, ha1, r1, m1, p1⟩
+        · exact Or.inr ⟨ghostFree_append g1 g2, k2', h2, ha2, run_append_some r1 r2, sub _ m2, p2⟩
+    · rcases ia ha c r h tr o c' hra hp hk s1 with hpn | ⟨g1, k1', h1, ha1, r1, m1, p1⟩
       · exact Or.inl hpn
       · obtain ⟨R1, k1, sub⟩ := bindAll_mem he m1
         rw [if_neg hne] at k1
         cases k1
-        exact Or.inr ⟨h1, ha1, r1, sub _ (List.mem_singleton.mpr rfl), p1⟩
+        exact Or.inr ⟨g1, k1', h1, ha1, r1, sub _ (List.mem_singleton.mpr rfl), p1⟩
 
 theorem sim_choice {a b : Stmt} (tag : Nat) (ia : Sim sig C a) (ib : Sim sig C b) :
     Sim sig C (.choice tag a b) := by
-  intro ha c R h tr o c' he hp hs
+  intro ha c R h tr o c' he hp hk hs
   simp only [execA] at he
   split at he
   · cases he
@@ -356,26 +737,26 @@ theorem sim_choice {a b : Stmt} (tag : Nat) (ia : Sim sig C a) (ib : Sim sig C b
       cases he
       simp only [sem] at hs
       rcases hs with s1 | s2
-      · rcases ia ha c r1 h tr o c' hr1 hp s1 with hpn | ⟨h1, ha1, e1, m1, p1⟩
+      · rcases ia ha c r1 h tr o c' hr1 hp hk s1 with hpn | ⟨g1, k1, h1, ha1, e1, m1, p1⟩
         · exact Or.inl hpn
-        · exact Or.inr ⟨h1, ha1, e1, mem_union.mpr (Or.inl m1), p1⟩
-      · rcases ib ha c r2 h tr o c' hr2 hp s2 with hpn | ⟨h1, ha1, e1, m1, p1⟩
+        · exact Or.inr ⟨g1, k1, h1, ha1, e1, mem_union.mpr (Or.inl m1), p1⟩
+      · rcases ib ha c r2 h tr o c' hr2 hp hk s2 with hpn | ⟨g1, k1, h1, ha1, e1, m1, p1⟩
         · exact Or.inl hpn
-        · exact Or.inr ⟨h1, ha1, e1, mem_union.mpr (Or.inr m1), p1⟩
+        · exact Or.inr ⟨g1, k1, h1, ha1, e1, mem_union.mpr (Or.inr m1), p1⟩
 
 theorem sim_ifFlag {a b : Stmt} (v : Nat) (ia : Sim sig C a) (ib : Sim sig C b) :
     Sim sig C (.ifFlag v a b) := by
-  intro ha c R h tr o c' he hp hs
+  intro ha c R h tr o c' he hp hk hs
   simp only [execA] at he
   simp only [sem] at hs
   by_cases hf : getF c.flags v = true
   · rw [if_pos hf] at he hs
-    exact ia ha c R h tr o c' he hp hs
+    exact ia ha c R h tr o c' he hp hk hs
   · rw [if_neg hf] at he hs
-    exact ib ha c R h tr o c' he hp hs
+    exact ib ha c R h tr o c' he hp hk hs
 
 theorem sim_scope {a : Stmt} (ia : Sim sig C a) : Sim sig C (.scope a) := by
-  intro ha c R h tr o c' he hp hs
+  intro ha c R h tr o c' he hp hk hs
   simp only [execA] at he
   split at he
   · cases he
@@ -383,12 +764,12 @@ theorem sim_scope {a : Stmt} (ia : Sim sig C a) : Sim sig C (.scope a) := by
     cases he
     simp only [sem] at hs
     obtain ⟨o1, s1, rfl⟩ := hs
-    rcases ia ha c r h tr o1 c' hr hp s1 with hpn | ⟨h1, ha1, e1, m1, p1⟩
+    rcases ia ha c r h tr o1 c' hr hp hk s1 with hpn | ⟨g1, k1, h1, ha1, e1, m1, p1⟩
     · subst hpn; exact Or.inl rfl
-    · exact Or.inr ⟨h1, ha1, e1, List.mem_map.mpr ⟨_, m1, rfl⟩, p1⟩
+    · exact Or.inr ⟨g1, k1, h1, ha1, e1, List.mem_map.mpr ⟨_, m1, rfl⟩, p1⟩
 
 theorem sim_block {a : Stmt} (ia : Sim sig C a) : Sim sig C (.block a) := by
-  intro ha c R h tr o c' he hp hs
+  intro ha c R h tr o c' he hp hk hs
   simp only [execA] at he
   split at he
   · cases he
@@ -396,12 +777,12 @@ theorem sim_block {a : Stmt} (ia : Sim sig C a) : Sim sig C (.block a) := by
     cases he
     simp only [sem] at hs
     obtain ⟨o1, s1, rfl⟩ := hs
-    rcases ia ha c r h tr o1 c' hr hp s1 with hpn | ⟨h1, ha1, e1, m1, p1⟩
+    rcases ia ha c r h tr o1 c' hr hp hk s1 with hpn | ⟨g1, k1, h1, ha1, e1, m1, p1⟩
     · subst hpn; exact Or.inl rfl
-    · exact Or.inr ⟨h1, ha1, e1, List.mem_map.mpr ⟨_, m1, rfl⟩, p1⟩
+    · exact Or.inr ⟨g1, k1, h1, ha1, e1, List.mem_map.mpr ⟨_, m1, rfl⟩, p1⟩
 
 theorem sim_fin {a d : Stmt} (ia : Sim sig C a) (id : Sim sig C d) : Sim sig C (.fin a d) := by
-  intro ha c R h tr o c' he hp hs
+  intro ha c R h tr o c' he hp hk hs
   simp only [execA] at he
   split at he
   · cases he
@@ -410,7 +791,7 @@ theorem sim_fin {a d : Stmt} (ia : Sim sig C a) (id : Sim sig C d) : Sim sig C (
     obtain ⟨c1, t1, o1, s1, hcase⟩ := hs
     rcases hcase with ⟨_, _, rfl, _⟩ | ⟨hne, t2, o2, s2, rfl, rfl⟩
     · exact Or.inl rfl
-    · rcases ia ha c r h t1 o1 c1 hr hp s1 with hpn | ⟨h1, ha1, e1, m1, p1⟩
+    · rcases ia ha c r h t1 o1 c1 hr hp hk s1 with hpn | ⟨g1, k1', h1, ha1, e1, m1, p1⟩
       · exact absurd hpn hne
       · obtain ⟨R1, k1, sub⟩ := bindAll_mem he m1
         rw [if_neg hne] at k1
@@ -418,9 +799,9 @@ theorem sim_fin {a d : Stmt} (ia : Sim sig C a) (id : Sim sig C d) : Sim sig C (
         · cases k1
         · rename_i r2 hr2
           cases k1
-          rcases id ha1 c1 r2 h1 t2 o2 c' hr2 p1 s2 with hpn | ⟨h2, ha2, e2, m2, p2⟩
+          rcases id ha1 c1 r2 h1 t2 o2 c' hr2 p1 k1' s2 with hpn | ⟨g2, k2', h2, ha2, e2, m2, p2⟩
           · subst hpn; exact Or.inl rfl
-          · exact Or.inr ⟨h2, ha2, run_append_some e1 e2,
+          · exact Or.inr ⟨ghostFree_append g1 g2, k2', h2, ha2, run_append_some e1 e2,
               sub _ (List.mem_map.mpr ⟨_, m2, rfl⟩), p2⟩
 
 theorem loopOuts_ok {ce : Bool} {s : AS} {r R : Outs} (he : loopOuts ce s r = .ok R) :
@@ -446,7 +827,7 @@ theorem loopOuts_ok {ce : Bool} {s : AS} {r R : Outs} (he : loopOuts ce s r = .o
   · cases he
 
 theorem sim_loop {a : Stmt} (ce : Bool) (ia : Sim sig C a) : Sim sig C (.loop ce a) := by
-  intro ha c R h tr o c' he hp hs
+  intro ha c R h tr o c' he hp hk hs
   simp only [execA] at he
   split at he
   · cases he
@@ -459,11 +840,11 @@ theorem sim_loop {a : Stmt} (ce : Bool) (ia : Sim sig C a) : Sim sig C (.loop ce
     | zero =>
       simp only [iter] at hn
       obtain ⟨hce, rfl, rfl, rfl⟩ := hn
-      exact Or.inr ⟨h, ha, rfl, hnorm hce, hp⟩
+      exact Or.inr ⟨ghostFree_nil, hk, h, ha, rfl, hnorm hce, hp⟩
     | succ n ih =>
       simp only [iter] at hn
       obtain ⟨t1, o1, c1, s1, hcase⟩ := hn
-      rcases ia ha c r h t1 o1 c1 hr hp s1 with hpn | ⟨h1, ha1, e1, m1, p1⟩
+      rcases ia ha c r h t1 o1 c1 hr hp hk s1 with hpn | ⟨g1, k1, h1, ha1, e1, m1, p1⟩
       · subst hpn
         rcases hcase with ⟨hx | hx, _⟩ | ⟨hx, _⟩ | ⟨_, _, rfl, _⟩
         · cases hx
@@ -474,12 +855,12 @@ theorem sim_loop {a : Stmt} (ce : Bool) (ia : Sim sig C a) : Sim sig C (.loop ce
         · have hs := hinv o1 _ m1 hnc
           injection hs with hs1 hs2
           subst hs1 hs2
-          rcases ih h1 t2 p1 it2 with hpn | ⟨h2, ha2, e2, m2, p2⟩
+          rcases ih h1 t2 p1 it2 with hpn | ⟨g2, k2, h2, ha2, e2, m2, p2⟩
           · exact Or.inl hpn
-          · exact Or.inr ⟨h2, ha2, run_append_some e1 e2, m2, p2⟩
-        · exact Or.inr ⟨h1, ha1, e1, hbrk _ m1, p1⟩
+          · exact Or.inr ⟨ghostFree_append g1 g2, k2, h2, ha2, run_append_some e1 e2, m2, p2⟩
+        · exact Or.inr ⟨g1, k1, h1, ha1, e1, hbrk _ m1, p1⟩
         · rcases hrp with rfl | rfl
-          · exact Or.inr ⟨h1, ha1, e1, hret _ m1, p1⟩
+          · exact Or.inr ⟨g1, k1, h1, ha1, e1, hret _ m1, p1⟩
           · exact Or.inl rfl
 
 /-- The simulation holds for every statement. -/
@@ -505,21 +886,13 @@ theorem sim_all (hC : CalleeOK sig C) (s : Stmt) : Sim sig C s := by
   | cont => exact sim_cont
   | panic => exact sim_panic
   | unsupported w => exact sim_unsupported w
+  | need cs => exact sim_need cs
+  | mark k m => exact sim_mark k m
 
 /-! ## Whole programs -/
 
-theorem mem_of_lookup {α : Type} (f : Nat) (b : α) :
-    ∀ (l : List (Nat × α)), l.lookup f = some b → (f, b) ∈ l
-  | [], e => by cases e
-  | (k, x) :: rest, e => by
-    rw [List.lookup_cons] at e
-    split at e
-    · rename_i hk
-      cases e
-      have : f = k := by simpa using hk
-      subst this
-      exact List.mem_cons_self
-    · exact List.mem_cons_of_mem _ (mem_of_lookup f b rest e)
+theorem pilesOK_init : PilesOK CS.init := by
+  intro kv hkv; cases hkv
 
 theorem fnSem_sound (sig : Sig) (prog : Prog) (hc : consistent sig prog = true) :
     ∀ n, CalleeOK sig (fnSem prog n)
@@ -539,27 +912,23 @@ theorem fnSem_sound (sig : Sig) (prog : Prog) (hc : consistent sig prog = true) 
     · cases hchk
     · rename_i r hr
       rcases sim_all (fnSem_sound sig prog hc n) body (sortS req) CS.init r req t o c' hr
-          (sortS_perm req).symm hs with hpn | ⟨h1, ha1, e1, m1, p1⟩
+          (sortS_perm req).symm pilesOK_init hs with hpn | ⟨gf, _, h1, ha1, e1, m1, p1⟩
       · subst hpn; rcases ho with ho | ho <;> cases ho
       · have hfin := (List.all_eq_true.mp hchk) _ m1
         unfold okFinal at hfin
         have hheld : ha1 = sortS post := by
           rcases ho with rfl | rfl <;> simpa using hfin
         subst hheld
-        exact ⟨h1, e1, p1.trans (sortS_perm post)⟩
+        exact ⟨gf, h1, e1, p1.trans (sortS_perm post)⟩
 
-/-- Main theorem. -/
-theorem checker_sound (sig : Sig) (prog : Prog) (hc : consistent sig prog = true) :
-    ∀ (f : Nat) (tr : List Ev), Exec prog f tr →
-      ∃ req post, sig.get f = some (req, post) ∧
-        ∃ h', run req tr = some h' ∧ h'.Perm post := by
-  intro f tr ⟨n, hn⟩
+theorem exec_sig (sig : Sig) (prog : Prog) (hc : consistent sig prog = true)
+    {f : Nat} {tr : List Ev} (he : Exec prog f tr) : ∃ req post, sig.get f = some (req, post) := by
+  obtain ⟨n, hn⟩ := he
   cases n with
   | zero => cases hn
   | succ n =>
-    have hn' := hn
-    simp only [fnSem] at hn'
-    obtain ⟨body, hb, _⟩ := hn'
+    simp only [fnSem] at hn
+    obtain ⟨body, hb, _⟩ := hn
     have hchk : checkFn sig f body = true := by
       unfold consistent at hc
       exact (List.all_eq_true.mp hc) _ (mem_of_lookup f body prog hb)
@@ -567,7 +936,25 @@ theorem checker_sound (sig : Sig) (prog : Prog) (hc : consistent sig prog = true
     split at hchk
     · cases hchk
     · rename_i req post hsig
-      exact ⟨req, post, hsig, fnSem_sound sig prog hc (n + 1) f tr hn req post hsig⟩
+      exact ⟨req, post, hsig⟩
+
+/-- Main theorem. -/
+theorem checker_sound (sig : Sig) (prog : Prog) (hc : consistent sig prog = true) :
+    ∀ (f : Nat) (tr : List Ev), Exec prog f tr →
+      ∃ req post, sig.get f = some (req, post) ∧
+        ∃ h', run req tr = some h' ∧ h'.Perm post := by
+  intro f tr he
+  obtain ⟨req, post, hsig⟩ := exec_sig sig prog hc he
+  obtain ⟨n, hn⟩ := he
+  exact ⟨req, post, hsig, (fnSem_sound sig prog hc n f tr hn req post hsig).2⟩
+
+/-- Lock operations of checked code never mention a ghost lock. -/
+theorem checker_sound_ghostFree (sig : Sig) (prog : Prog) (hc : consistent sig prog = true) :
+    ∀ (f : Nat) (tr : List Ev), Exec prog f tr → GhostFree tr := by
+  intro f tr he
+  obtain ⟨req, post, hsig⟩ := exec_sig sig prog hc he
+  obtain ⟨n, hn⟩ := he
+  exact (fnSem_sound sig prog hc n f tr hn req post hsig).1
 
 /-! ## Counting corollary -/
 
@@ -605,6 +992,14 @@ theorem run_count : ∀ (tr : List Ev) (h h' : List Nat), run h tr = some h' →
       · have hne : ¬ (l = k) := fun h => hk h.symm
         rw [List.count_erase_of_ne hne] at ih
         simp [hk] at ih ⊢; omega
+    · rw [if_neg hc] at e; cases e
+  | .need cs :: t, h, h', e, l => by
+    simp only [run, stepH] at e
+    by_cases hc : holdsClass h cs = true
+    · rw [if_pos hc] at e
+      have ih := run_count t h h' e l
+      simp only [rels, acqs, List.count_cons] at ih ⊢
+      simp at ih ⊢; omega
     · rw [if_neg hc] at e; cases e
 
 theorem run_counts (h h' : List Nat) (tr : List Ev) (hr : run h tr = some h') :
